@@ -237,7 +237,7 @@ def run_c14(ctx):
         distinct_nontrivial=sum(nontrivial.values()),
         rule="split: every string of length <= %d over %s (+ %d seeded random strings of length <= 24 over a 14-symbol alphabet incl. CJK); "
              "non-trivial = takes the slow path (has a quote) and has a comma. rt: every single rule keys x values x messages in the windows %s, "
-             "every pair over Pool2 (%d rules)%s, cycling RM.Set modes once/incr/multi; non-trivial = >= 2 rules, or a quote in value/message, "
+             "every pair over Pool2 (%d rules)%s, cycling RM.Set modes once/incr/multi/premulti (multi-field Set whose first field already holds rules); non-trivial = >= 2 rules, or a quote in value/message, "
              "or a message with '=' or of one byte. Distinct by input." % (
                  alpha["maxlen"], "".join(alpha["alpha"]), got["splitr"], plan["singles"], len(pool2),
                  "" if quick else ", every triple over Pool3 (%d rules)" % len(pool3)),
